@@ -36,8 +36,43 @@ let show_outcome (rs : res list list) : string =
 
 let rec all_ones (l : nat list) = match l with [] -> true | x :: r -> int_of_nat x = 1 && all_ones r
 
+(* whole-object model: "<id> OBJ <block> <script>", script ops ',' separated: D<v> N<v>.<k> G<v>.<i> M<d>.<s> A<d>.<s>
+   X<a>.<b> K<v> T<v> (ignored).  Prints the same objs= summary as the C++ driver. *)
+let parse_oop (hint : int) (o : string) : oop list =
+  let n = String.length o in
+  if n < 2 then [] else
+  let a = nat_of_int (Char.code o.[1] - Char.code '0') in
+  let b () = match String.index_opt o '.' with
+    | Some i -> int_of_string (String.sub o (i + 1) (n - i - 1)) | None -> 0 in
+  match o.[0] with
+  | 'D' -> [QCreate (a, z_of_int 1, z_of_int hint)]
+  | 'N' -> [QCreate (a, z_of_int (b ()), z_of_int hint)]
+  | 'G' -> [QEnsure (a, z_of_int (b ()))]
+  | 'M' -> [QMoveCtor (a, nat_of_int (b ()))]
+  | 'A' -> [QMoveAssign (a, nat_of_int (b ()))]
+  | 'X' -> [QSwap (a, nat_of_int (b ()))]
+  | 'K' -> [QDestroy a]
+  | _ -> []
+
+let show_objs (s : ost) : string =
+  let (slots, (nb, nk)) = oview s in
+  let one x = match x with
+    | None -> "-"
+    | Some ((((bs, n), c), tags), rl) ->
+      Printf.sprintf "%d:%d:%d:%s:%d" (int_of_z bs) (int_of_nat n) (int_of_z c)
+        (String.concat "." (List.map (fun t -> string_of_int (int_of_z t)) tags)) (int_of_nat rl) in
+  Printf.sprintf "%s,nb=%d,nk=%d" (String.concat "/" (List.map one slots)) (int_of_nat nb) (int_of_nat nk)
+
+let run_obj (id : string) (block : string) (script : string) : unit =
+  let v = int_of_string (String.sub block 1 (String.length block - 1)) in
+  let static_bs = if block.[0] = 's' then v else 0 in
+  let ops = List.concat_map (parse_oop v) (List.filter (fun x -> x <> "") (String.split_on_char ',' script)) in
+  let s = orun (oinit (z_of_int static_bs) (nat_of_int 4)) ops in
+  Printf.printf "%s objs=%s\n" id (show_objs s)
+
 let () = iter_lines (fun line ->
   match words line with
+  | [id; "OBJ"; block; script] -> run_obj id block script
   | [id; b; t0; prog] ->
     let progs = List.map (fun th -> List.map parse_op (List.filter (fun x -> x <> "") (String.split_on_char ',' th)))
         (String.split_on_char '|' prog) in
